@@ -466,6 +466,25 @@ def d5_binom(prog, rep):
                 tag(g[0][0][3]) == 'bin' and g[0][0][3][1] == 'Div' and tag(g[0][0][3][2]) == 'const' and g[0][0][3][2][2] == 2 ** 64 - 1 and g[0][0][3][3] == hi
             if okg:
                 continue      # q > MAX/nk implies C(n,i) >= q*nk > MAX: fires only when the value does not fit
+            # the same test on the whole running coefficient instead of its quotient by i: c = C(n,i-1) > MAX/nk does not imply that
+            # C(n,i) = c*(n-i+1)/i exceeds MAX -- the zero is returned for coefficients that fit (decided on the recurrence invariant
+            # c = C(n, i-1) established above; the witness is pure arithmetic)
+            wide = len(g) == 1 and g[0][1] is True and g[0][0][1] == 'Gt' and g[0][0][2] == acc and \
+                tag(g[0][0][3]) == 'bin' and g[0][0][3][1] == 'Div' and tag(g[0][0][3][2]) == 'const' and g[0][0][3][2][2] == 2 ** 64 - 1 and g[0][0][3][3] == hi
+            if wide and form is not None and not problems:
+                from math import comb
+                wit = None
+                for n0 in range(2, 90):
+                    for k0 in range(1, n0 // 2 + 1):
+                        if comb(n0, k0) < 2 ** 64 and any(comb(n0, i0 - 1) > (2 ** 64 - 1) // k0 for i0 in range(1, k0 + 1)):
+                            wit = (n0, k0)
+                            break
+                    if wit:
+                        break
+                problems.append('the overflow bail-out tests the whole running coefficient (%s) where only its quotient by i is multiplied: it returns 0 for '
+                                'coefficients that fit in 64 bits, first C(%d,%d)' % (show(g[0][0])[:40], wit[0], wit[1]) if wit else
+                                'the overflow bail-out tests the whole running coefficient where only its quotient by i is multiplied')
+                continue
             if not bare:
                 undec.append('overflow bail-out %s not recognised' % [show(c)[:50] for c, _ in g])
         else:
